@@ -88,7 +88,8 @@ def ret_summary(facts, fid):
             if c is None or c in ('T', 'F', 'null', 'ZERO'):
                 return None
             return {c}
-        for n in g.all_nodes():
+        # the function's own returns are CFG elements (a `return` inside a lambda-expression is not one of them)
+        for n in (g.node(e) for blk in g.blocks.values() for e in blk.elems):
             if n['k'] == 'ReturnStmt':
                 cs = consts(g.ch(n)[0]) if g.ch(n) else None
                 if cs is None:
